@@ -230,6 +230,78 @@ def hinit (c : Cfg) : HSt := started c {} {} false (start c {} {})
 
 def hrun (c : Cfg) (ops : List HOp) : HSt := ops.foldl (hstep c) (hinit c)
 
+/-! ## the DA includer INSIDE a block application
+
+`trySyncNextBlock` writes `SaveBlockData(h)`, the state, `SetHeight(h)` in this order; `DAIncluderLoop` is another
+goroutine and may run between any two of them.  `runInc c s k`: the run that starts in `s`, with ONE includer pass
+after `k` of the sync loop's durable writes (the scan is over: every mark it sets is there), then the rest of the
+sync loop's writes, then the includer until it cannot advance. -/
+
+/-- what the includer sees after `k` of the durable writes of the run that starts in `s` -/
+def midView (c : Cfg) (s : HSt) (k : Nat) : Submit.ANode :=
+  let r := run c s.nd s.v
+  let m := marksOf c s.nd s.v
+  toA (s.nd.full.store.applyPrefix k r.2.2) (m.1 ++ s.hMarks) (m.2 ++ s.dMarks) s.daInc s.finals
+
+/-- does the sync loop of the run that starts in `s` make more than `k` durable writes? (else there is no such boundary) -/
+def midFires (c : Cfg) (s : HSt) (k : Nat) : Bool := k < (run c s.nd s.v).2.2.length
+
+def runInc (c : Cfg) (s : HSt) (k : Nat) : HSt :=
+  if !s.ok then s else
+  if !midFires c s k then hstep c s .run else
+  let r := run c s.nd s.v
+  let m := marksOf c s.nd s.v
+  let a := Submit.includerIter (midView c s k)
+  let st := a.1.n.store.applyAll (r.2.2.drop k)
+  includeSt { s with nd := { r.1 with full := { r.1.full with store := st } }, v := r.2.1, before := s.nd.full.store,
+                     ws := r.2.2.take k ++ a.2 ++ r.2.2.drop k,
+                     hMarks := m.1 ++ s.hMarks, dMarks := m.2 ++ s.dMarks, daInc := a.1.daInc, finals := a.1.finals }
+
+/-- histories with includer passes inside block applications -/
+inductive HOp2
+  | base (op : HOp)
+  | runInc (k : Nat)      -- a run with one includer pass after `k` of the sync loop's writes
+  deriving Inhabited
+
+def hstep2 (c : Cfg) (s : HSt) : HOp2 → HSt
+  | .base op => hstep c s op
+  | .runInc k => runInc c s k
+
+/-! ### the relaxed chain-height guard (`syncedHeight+1 < height`): NOT what the code does; used by the witness that
+the guard is what ties the DA-included height to the chain height -/
+
+def isDAIncludedRelaxed (a : Submit.ANode) (h : Nat) : Option Bool :=
+  if a.n.store.height + 1 < h then some false
+  else match a.n.store.getBlock h with
+    | none => none
+    | some b =>
+      some ((Submit.markOf a.hMarks b.sh.hdr.hash).isSome &&
+            (b.data.daCommitment = emptyDataHash || (Submit.markOf a.dMarks b.data.daCommitment).isSome))
+
+/-- `Submit.includerPass` with the relaxed guard -/
+def includerPassRelaxed : Nat → Submit.ANode → List SW → Submit.ANode × List SW
+  | 0, a, ws => (a, ws)
+  | fuel+1, a, ws =>
+    let next := a.daInc + 1
+    match isDAIncludedRelaxed a next with
+    | some true =>
+      match a.n.store.getBlock next with
+      | none => (a, ws)
+      | some b =>
+        match Submit.markOf a.hMarks b.sh.hdr.hash with
+        | none => (a, ws)
+        | some hd =>
+          let dd : Option Nat := if b.data.daCommitment = emptyDataHash then some hd else Submit.markOf a.dMarks b.data.daCommitment
+          match dd with
+          | none => (a, ws)
+          | some dd =>
+            let w1 := SW.setMeta (Submit.rhbKey next "h") (le64 hd)
+            let w2 := SW.setMeta (Submit.rhbKey next "d") (le64 dd)
+            let w3 := SW.setMeta Submit.daIncKey (le64 next)
+            let st := ((a.n.store.apply w1).apply w2).apply w3
+            includerPassRelaxed fuel { a with n := { a.n with store := st }, daInc := next, finals := next :: a.finals } (ws ++ [w1, w2, w3])
+    | _ => (a, ws)
+
 /-! ## blobs of the proposer's chain as they appear on the DA layer -/
 
 /-- `SignedHeader.MarshalBinary` of a header of the chain (signature bytes `sig`, marshalled public key `pk`) -/
